@@ -45,6 +45,7 @@ def mapping(casc, nullable=True):
         __tablename__ = "c"
         id = sa.Column(sa.Integer, primary_key=True, autoincrement=False)
         pid = sa.Column(sa.Integer, sa.ForeignKey("p.id"), nullable=nullable)
+        val = sa.Column(sa.Integer, nullable=False)
         parent = orm.relationship("P", back_populates="children")
 
         def __repr__(self):
@@ -89,6 +90,7 @@ class Real:
             dbapi_conn.autocommit = ac
 
         self.stmts = []
+        self.nbatch = 0
 
         @event.listens_for(self.engine, "before_cursor_execute")
         def _bce(conn, cursor, statement, parameters, context, executemany):
@@ -103,14 +105,15 @@ class Real:
                     d = dict(zip(names, prm))
                 else:
                     d = dict(prm)
-                self.stmts.append((m.group(1).split()[0].upper(), m.group(2).lower(), d))
+                self.stmts.append((m.group(1).split()[0].upper(), m.group(2).lower(), d, self.nbatch))
+            self.nbatch += 1
 
         self.Base.metadata.create_all(self.engine)
         self.session = None
         self.obj = {}
 
     # ------------------------------------------------------------------ lifecycle of a walk
-    def reset(self, dbp=(), dbc=None):
+    def reset(self, dbp=(), dbc=None, dbv=None):
         """start a walk: database = the given rows (spec names), fresh session, every row loaded, other objects new"""
         if self.session is not None:
             try:
@@ -124,7 +127,8 @@ class Real:
             raw.execute("insert into p (id) values (?)", (int(p[1:]),))
         for c, v in (dbc or {}).items():
             if v != "absent":
-                raw.execute("insert into c (id, pid) values (?, ?)", (int(c[1:]), None if v == "none" else int(v[1:])))
+                raw.execute("insert into c (id, pid, val) values (?, ?, ?)",
+                            (int(c[1:]), None if v == "none" else int(v[1:]), int((dbv or {}).get(c, "v0")[1:])))
         raw.close()
         self.obj = {}
         self._fresh_session()
@@ -134,7 +138,7 @@ class Real:
         """new objects have both relationship attributes initialised (no unloaded attribute ever exists in a walk)"""
         if n[0] == "p":
             return self.P(id=int(n[1:]), children=[])
-        return self.C(id=int(n[1:]), parent=None)
+        return self.C(id=int(n[1:]), parent=None, val=0)
 
     def fk_enforced(self):
         with self.engine.connect() as conn:
@@ -184,6 +188,8 @@ class Real:
             return self._call(lambda: setattr(o[arg[0]], "children", [o[x] for x in arg[1:]]))
         if a == "SetParent":
             return self._call(lambda: setattr(o[arg[0]], "parent", None if arg[1] == "none" else o[arg[1]]))
+        if a == "SetVal":
+            return self._call(lambda: setattr(o[arg[0]], "val", int(arg[1][1:])))
         if a == "Flush":
             return self._call(s.flush)
         if a == "CommitReload":
@@ -221,7 +227,7 @@ class Real:
 
     def observe(self, rows=False):
         sa = self.sa
-        out = {"life": {}, "children": {}, "parent": {}, "pid": {}, "marked": [], "hist": {}}
+        out = {"life": {}, "children": {}, "parent": {}, "pid": {}, "val": {}, "marked": [], "hist": {}}
         sess = self.session
         deleted = set(id(x) for x in sess.deleted)
         for n, ob in self.obj.items():
@@ -238,6 +244,9 @@ class Real:
                 v = ob.__dict__.get("pid")
                 out["pid"][n] = "none" if v is None else "p%d" % v
                 h = ins.attrs.parent.history
+                out["val"][n] = "v%s" % ob.__dict__.get("val")
+                hv = ins.attrs.val.history
+                out["hist"][n + ".val"] = [sorted("v%d" % x for x in (part or ()) if x is not None) for part in hv]
                 hp = ins.attrs.pid.history
                 out["hist"][n + ".pid"] = [sorted("p%d" % x for x in (part or ()) if x is not None) for part in hp]
             out["hist"][n] = [sorted(set(name(x) for x in (part or ()) if x is not None)) for part in h]
@@ -253,30 +262,35 @@ class Real:
         sa = self.sa
         conn = self.session.connection()
         dbp = sorted("p%d" % r[0] for r in conn.execute(sa.text("select id from p")))
-        dbc = {"c%d" % r[0]: ("none" if r[1] is None else "p%d" % r[1]) for r in conn.execute(sa.text("select id, pid from c"))}
-        return {"dbp": dbp, "dbc": dbc}
+        rows = list(conn.execute(sa.text("select id, pid, val from c")))
+        dbc = {"c%d" % r[0]: ("none" if r[1] is None else "p%d" % r[1]) for r in rows}
+        return {"dbp": dbp, "dbc": dbc, "dbv": {"c%d" % r[0]: "v%d" % r[2] for r in rows}}
 
     def committed_rows(self):
         raw = sqlite3.connect(self.path, isolation_level=None)
         try:
             dbp = sorted("p%d" % r[0] for r in raw.execute("select id from p"))
-            dbc = {"c%d" % r[0]: ("none" if r[1] is None else "p%d" % r[1]) for r in raw.execute("select id, pid from c")}
+            rows = list(raw.execute("select id, pid, val from c"))
+            dbc = {"c%d" % r[0]: ("none" if r[1] is None else "p%d" % r[1]) for r in rows}
         finally:
             raw.close()
-        return {"dbp": dbp, "dbc": dbc}
+        return {"dbp": dbp, "dbc": dbc, "dbv": {"c%d" % r[0]: "v%d" % r[2] for r in rows}}
 
     def dml(self):
-        """normalised DML of the last operation: list of [op, table, pk, fk] (fk: 'p1' / 'none' / '-' when not written)"""
+        """normalised DML of the last operation: list of [op, table, pk, fk, batch, val] (fk: 'p1' / 'none' / '-' when not written; val 'v0' / '-')"""
         out = []
-        for op, table, prm in self.stmts:
+        for op, table, prm, batch in self.stmts:
             pk = None
             fk = "-"
+            val = "-"
             for k, v in prm.items():
                 if k in ("id", "%s_id" % table):
                     pk = v
                 elif k == "pid":
                     fk = "none" if v is None else "p%d" % v
-            out.append([op, table, "%s%s" % (table, pk), fk])
+                elif k == "val":
+                    val = "v%s" % v
+            out.append([op, table, "%s%s" % (table, pk), fk, batch - self.stmts[0][3], val])
         return out
 
 
@@ -299,15 +313,16 @@ class Driver:
         self.calibrated = self.real.fk_enforced()
 
     def reset(self, state):
-        self.real.reset(state["dbp"], state["dbc"])
+        self.real.reset(state["dbp"], state["dbc"], state["dbv"])
 
     def expected(self, to, obs):
-        e = {"life": to["life"], "children": {p: list(to["coll"][p]) for p in self.ps}, "parent": to["parent"], "pid": to["pid"],
+        e = {"life": to["life"], "children": {p: list(to["coll"][p]) for p in self.ps}, "parent": to["parent"], "pid": to["pid"], "val": to["val"],
              "marked": sorted(to["marked"]), "mod": sorted(to["mod"]), "insess": sorted(obs["insess"]), "hist": {}}
         for o in self.ps + self.cs:
             e["hist"][o] = _sets(obs["hist"][o])
         for c in self.cs:
             e["hist"][c + ".pid"] = _sets(obs["pidhist"][c])
+            e["hist"][c + ".val"] = _sets(obs["valhist"][c])
         return e
 
     def step(self, frm, act, to):
@@ -338,7 +353,8 @@ class Driver:
             return "observer raised %r" % (e,)
         exp = self.expected(to, act["obs"])
         if flushed:
-            exp["rows"] = {"dbp": sorted(to["dbp"]), "dbc": {c: v for c, v in to["dbc"].items() if v != "absent"}}
+            exp["rows"] = {"dbp": sorted(to["dbp"]), "dbc": {c: v for c, v in to["dbc"].items() if v != "absent"},
+                           "dbv": {c: v for c, v in to["dbv"].items() if v != "absent"}}
         diffs = []
         for k in exp:
             if got.get(k) != exp[k]:
@@ -352,7 +368,7 @@ class Driver:
                 else:
                     diffs.append("%s: real %r, spec %r" % (k, got[k], exp[k]))
         if flushed:
-            gd = sorted([d[0], d[2], d[3]] for d in r.dml())
+            gd = sorted([d[0], d[2], d[3], d[5]] for d in r.dml())
             ed = sorted(list(x) for x in act["dml"])
             if gd != ed:
                 diffs.append("DML emitted %r, spec %r" % (gd, ed))
@@ -378,7 +394,8 @@ class Driver:
         ret = r.do("CommitReload", [])
         if ret != "ok":
             return "drain: commit of a clean session returned %r" % ret
-        exp = {"dbp": sorted(state["dbp"]), "dbc": {c: v for c, v in state["dbc"].items() if v != "absent"}}
+        exp = {"dbp": sorted(state["dbp"]), "dbc": {c: v for c, v in state["dbc"].items() if v != "absent"},
+               "dbv": {c: v for c, v in state["dbv"].items() if v != "absent"}}
         cr = r.committed_rows()
         if cr != exp:
             return "drain: committed rows %r, spec %r" % (cr, exp)
